@@ -698,9 +698,9 @@ theorem firstOkValueError_mem {α : Type} (i : List String) (l : List (Except Er
 
 /-- whatever the duplicate search returns is the duplicate-free call's answer on a selection of the species
     given: a sub-list of each side, no species on both sides -/
-theorem dupSearch_selection {α : Type} (mode : Mode) (core : List String → List String → Except Err α) :
+theorem dupSearch_selection {α : Type} (isNone : Bool) (core : List String → List String → Except Err α) :
     ∀ (fuel : ℕ) (allow : Bool) (reac prod : List String) (r : α),
-      dupSearch mode core fuel allow reac prod = .ok r →
+      dupSearch isNone core fuel allow reac prod = .ok r →
       ∃ r' p', core r' p' = .ok r ∧ (∀ s ∈ r', s ∈ reac) ∧ (∀ s ∈ p', s ∈ prod) ∧ (∀ s ∈ r', s ∉ p') := by
   intro fuel
   induction fuel with
